@@ -593,9 +593,10 @@ func (s *Sess) Request(input []byte, fresh bool) *Step {
 			st.FinishErr = ferr.Error()
 		}
 	}
-	if s.W.Cfg.SharePersister && s.W.sharedPe != nil && (st.ExecErr != "" || st.FlushErr != "" || st.FinishErr != "" || !st.Finished) {
-		// the engine does not flush a reused persister when a request fails before or instead of
-		// the save; a gateway that reuses one has to drop its content itself
+	if s.W.Cfg.SharePersister && s.W.sharedPe != nil && (st.Panic != "" || st.FinishErr != "" || !st.Finished) {
+		// Finish was not called or failed (or the library panicked): the persister was not flushed and a
+		// gateway that reuses it has to drop its content itself. After a Finish that returned no error
+		// - whatever Exec and Flush had answered - the persister must be clean
 		s.W.sharedPe.WithContent(nil, nil)
 		s.W.Rec.Add(s.Idx, "DropPersisterContent", "", "")
 	}
